@@ -602,6 +602,13 @@ func c09CssTrigger(k c09CssCase, in []c09CssTok, inOpen bool) []string {
 	}
 	if c09CssHexCRLF.MatchString(src) {
 		add("K-C09-CSS-10") // hex escape terminated by CRLF: the dependency lexer takes the CR only
+		for _, t := range in {
+			if (t.tt == c09CssString || t.tt == c09CssBadString) && c09CssHexCRLF.MatchString(t.lex) {
+				// … inside a string: for the dependency lexer the LF ends the string (bad-string), CSS Syntax 3 reads on: the two
+				// readings differ from there to the end of the sheet (brackets, open constructs), as in error recovery
+				add("K-C09-CSS-10#string")
+			}
+		}
 	}
 	if c09CssStrayCloser(in) {
 		add("K-C09-CSS-9") // unmatched `)` / `]` in a declaration: error recovery of the dependency parser
@@ -764,6 +771,9 @@ func c09CssStrayCloser(ts []c09CssTok) bool {
 func c09CssExplained(ids []string, failed string) string {
 	for _, id := range ids {
 		if c09CssKnownExplains(id, failed) {
+			if i := strings.IndexByte(id, '#'); i >= 0 {
+				return id[:i]
+			}
 			return id
 		}
 	}
@@ -787,7 +797,7 @@ func c09CssKnownExplains(id, failed string) bool {
 		return written || value || outside
 	case "K-C09-CSS-11":
 		return value || written
-	case "K-C09-CSS-6", "K-C09-CSS-8", "K-C09-CSS-9":
+	case "K-C09-CSS-6", "K-C09-CSS-8", "K-C09-CSS-9", "K-C09-CSS-10#string":
 		return true // error recovery on malformed input: any of the checks may notice
 	}
 	return false
